@@ -16,6 +16,7 @@ import (
 // holder's PrimaryInfo as the key's value. Time is the bubble clock. Its own
 // record (who holds which session until when) is the oracle's truth.
 type SimLease struct {
+	open map[int]int // lease objects handed to a node and not closed by it
 	r         *Run
 	mu        sync.Mutex
 	TTL       time.Duration
@@ -58,6 +59,24 @@ var errLeaseNet = errors.New("simlease: service unreachable")
 
 func NewSimLease(r *Run, ttl, lockDelay time.Duration) *SimLease {
 	return &SimLease{r: r, TTL: ttl, LockDelay: lockDelay, sess: map[string]*leaseSession{}, Down: map[int]bool{}}
+}
+
+// noteOpen counts, per node, the lease objects the node was handed and has not
+// closed itself (s.mu held). A node that has called Close on its lease has
+// given its write authority up, whatever it still believes.
+func (s *SimLease) noteOpen(node, d int) {
+	if s.open == nil {
+		s.open = map[int]int{}
+	}
+	s.open[node] += d
+}
+
+// HoldsUnclosedLease reports whether the node was handed a lease it has not
+// closed (a process that died without closing keeps counting: lenient).
+func (s *SimLease) HoldsUnclosedLease(node int) bool {
+	s.mu.Lock()
+	defer s.mu.Unlock()
+	return s.open[node] > 0
 }
 
 func (s *SimLease) logf(node int, call, sess, res string) {
@@ -197,6 +216,7 @@ func (l *SimLeaser) Acquire(ctx context.Context) (litefs.Lease, error) {
 		return nil, fmt.Errorf("simlease: reply lost")
 	}
 	s.logf(l.node, "acquire", ss.id, "ok")
+	s.noteOpen(l.node, 1)
 	return &SimLeaseObj{l: l, id: ss.id, renewedAt: now, handoffCh: make(chan uint64)}, nil
 }
 
@@ -225,6 +245,7 @@ func (l *SimLeaser) AcquireExisting(ctx context.Context, leaseID string) (litefs
 	ss.node = l.node
 	s.value = litefs.PrimaryInfo{Hostname: l.host, AdvertiseURL: l.url}
 	s.logf(l.node, "acquire-existing", leaseID, "ok")
+	s.noteOpen(l.node, 1)
 	return &SimLeaseObj{l: l, id: leaseID, renewedAt: now, handoffCh: make(chan uint64)}, nil
 }
 
@@ -337,6 +358,9 @@ func (o *SimLeaseObj) Close() error {
 	s := o.l.svc
 	s.mu.Lock()
 	defer s.mu.Unlock()
+	if !o.Closed {
+		s.noteOpen(o.l.node, -1)
+	}
 	o.Closed = true
 	if o.l.unreachable() {
 		s.logf(o.l.node, "close", o.id, "unreachable")
@@ -351,5 +375,10 @@ func (o *SimLeaseObj) Close() error {
 		}
 	}
 	s.logf(o.l.node, "close", o.id, "ok")
+	// the reply travels back: a scheduling point between the moment the service
+	// has released the lease and the moment the node acts on the answer
+	s.mu.Unlock()
+	o.l.yield("lease-close-reply")
+	s.mu.Lock()
 	return nil
 }
